@@ -328,6 +328,15 @@ def check_totality(ctx, binp):
         report(ctx, "litonlylzma %s Decode does not return within %d s on a %d-byte input" % (fm, 4 * budget // 1000, len(data)),
                       {"kind": "hang", "key": "hang:" + vlib.sha(data), "fmt": fm, "input_hex": data[:65536].hex(), "inlen": len(data)})
         return 0, None
+    if r.returncode != 0 and re.search(r"^fatal error: ", r.stderr, re.M) and "wuffs/lib/litonlylzma" in r.stderr:
+        # the Go runtime gave up inside the decoder (out of memory, stack exhaustion): no recover() catches that - the
+        # "total decoder" clause is broken for whoever calls the package; the goroutine that was running names the site
+        head = re.search(r"^fatal error: .*$", r.stderr, re.M).group(0)
+        frames = [l.split("(")[0] for l in r.stderr.splitlines() if "wuffs/lib/litonlylzma" in l and not l.startswith("\t")][:3]
+        report(ctx, "litonlylzma Decode kills the process on an input of the decode table (tier %s, seed %d): %s in %s" % (ctx.tier, ctx.seed, head, " <- ".join(frames)),
+               {"kind": "decode", "key": "decode:process-death:" + (frames[0] if frames else "?"), "stderr": r.stderr[:6000],
+                "regen": {"tier": ctx.tier, "seed": ctx.seed}})
+        return 0, None
     if r.returncode != 0:
         raise ToolingError("lzmareplay -mode total failed (%d):\n%s" % (r.returncode, r.stderr[-2000:]))
     st = json.loads(r.stdout.strip().splitlines()[-1])
